@@ -16,15 +16,15 @@ from .glue_polygon import is_null, validity_ok
 from .c14_measures import AO, AV, AT, length_spec, area_spec, measure_spec
 from .c01_box import fmin, fmax
 from .c01_lines import LINE_MEETS, MLINE_MEETS
+from . import c01_polys
+from .c01_polys import MPOLY_MEETS, POLY_MEETS
 
 INT = 'spatialpandas/geometry/_algorithms/intersection.py'
 R = z3.RealSort()
 I = z3.IntSort()
 
-# element-level verdicts of the polygon drivers (uninterpreted; box already ordered low..high); the line and
-# multiline drivers are proved against the defined point-set predicates LINE_MEETS / MLINE_MEETS (c01_lines)
-POLY_MEETS = z3.Function('POLY_MEETS', AV, AO, I, I, R, R, R, R, z3.BoolSort())
-MPOLY_MEETS = z3.Function('MPOLY_MEETS', AV, AO, AO, I, I, R, R, R, R, z3.BoolSort())
+# the drivers are proved against the defined point-set predicates LINE_MEETS / MLINE_MEETS (c01_lines) and
+# POLY_MEETS / MPOLY_MEETS (c01_polys); the wrappers are proved against the drivers' contracts
 
 
 def box_of(c):
@@ -37,31 +37,6 @@ def register(reg):
     U32 = Arr('int', 'uint32')
 
     # ------------------------------------------------------------ assumed driver contracts (stand-in: rtc C01)
-    def two_level(target, FN):
-        reg.add(Contract(target,
-                         BOXP + [('flat_values', Arr('float', finite=True)), ('start_offsets0', U32), ('stop_offsets0', U32),
-                                 ('offsets1', U32), ('result', Arr('bool'))],
-                         requires=lambda c: [('lengths', And(c.stop_offsets0.n == c.start_offsets0.n,
-                                                             c.result.n == c.start_offsets0.n))],
-                         ensures=lambda c, r: [('cells', forall('int', lambda k: Implies(
-                             And(k >= 0, k < c.start_offsets0.n),
-                             c.post.result[k] == SBool(FN(c.flat_values.A, c.offsets1.A, (c.offsets1.off + c.start_offsets0[k]).z(),
-                                                          (c.offsets1.off + c.stop_offsets0[k]).z(), *box_of(c))))))],
-                         modifies=('result',), trusted=True,
-                         note='(driver: the element verdict is what the run-time checked C01 contract compares with the exact oracle)'))
-    two_level(INT + '::polygons_intersect_bounds', POLY_MEETS)
-
-    reg.add(Contract(INT + '::multipolygons_intersect_bounds',
-                     BOXP + [('flat_values', Arr('float', finite=True)), ('start_offsets0', U32), ('stop_offsets0', U32),
-                             ('offsets1', U32), ('offsets2', U32), ('result', Arr('bool'))],
-                     requires=lambda c: [('lengths', And(c.stop_offsets0.n == c.start_offsets0.n, c.result.n == c.start_offsets0.n))],
-                     ensures=lambda c, r: [('cells', forall('int', lambda k: Implies(
-                         And(k >= 0, k < c.start_offsets0.n),
-                         c.post.result[k] == SBool(MPOLY_MEETS(c.flat_values.A, c.offsets1.A, c.offsets2.A,
-                                                               (c.offsets1.off + c.start_offsets0[k]).z(),
-                                                               (c.offsets1.off + c.stop_offsets0[k]).z(), *box_of(c))))))],
-                     modifies=('result',), trusted=True, note='(driver: see lines_intersect_bounds)'))
-
     # ------------------------------------------------------------ intersects_bounds wrappers
     def ib_contract(target, cls, levels, verdict):
         cfgs = [{'levels': levels, 'inds': m} for m in ('none', 'given')]
@@ -77,6 +52,21 @@ def register(reg):
                 out.append(('inds-in-range', forall('int', lambda k: Implies(
                     And(k >= 0, k < c.inds.n), And(c.inds[k] >= 0, c.inds[k] < rep.length)))))
                 out.append(('inds-unit-stride', c.inds.stride == 1))
+            if cls in ('PolygonArray', 'MultiPolygonArray'):
+                # the polygon drivers' guarantee is for boxes of positive width and height and valid polygons
+                b = c.bounds
+                out.append(('box-positive', And(b[0] != b[2], b[1] != b[3])))
+                offs = offs_of(c.self, levels)
+                v = vals_of(c.self)
+                valid = c01_polys.HELPERS['valid_polygon_at']
+                if cls == 'PolygonArray':
+                    o0, o1 = offs
+                    out.append(('valid-polygons', forall('int', lambda k: Implies(
+                        And(k >= 0, k < rep.length), valid(v, o1, o0[rep.offset + k], o0[rep.offset + k + 1])))))
+                else:
+                    o0, o1, o2 = offs
+                    out.append(('valid-polygons', forall('int', lambda q: Implies(
+                        And(q >= 0, q < o1.n - 1), And(o1[q] <= o1[q + 1], o1[q + 1] < o2.n, valid(v, o2, o1[q], o1[q + 1]))))))
             return out
 
         def ens(c, r):
@@ -107,15 +97,13 @@ def register(reg):
         o0, o1 = offs
         return z3.And(positive(bx), MLINE_MEETS.f(v.A, v.off.z(), o1.A, (o1.off + o0[slot]).z(), (o1.off + o0[slot + 1]).z(), *bx))
 
-    def v_two(FN):
-        def f(c, v, offs, slot, bx):
-            o0, o1 = offs
-            return FN(v.A, o1.A, (o1.off + o0[slot]).z(), (o1.off + o0[slot + 1]).z(), *bx)
-        return f
+    def v_poly(c, v, offs, slot, bx):
+        o0, o1 = offs
+        return POLY_MEETS.f(v.A, v.off.z(), o1.A, (o1.off + o0[slot]).z(), (o1.off + o0[slot + 1]).z(), *bx)
 
     def v_mpoly(c, v, offs, slot, bx):
         o0, o1, o2 = offs
-        return MPOLY_MEETS(v.A, o1.A, o2.A, (o1.off + o0[slot]).z(), (o1.off + o0[slot + 1]).z(), *bx)
+        return MPOLY_MEETS.f(v.A, v.off.z(), o2.A, o2.off.z(), o1.A, (o1.off + o0[slot]).z(), (o1.off + o0[slot + 1]).z(), *bx)
 
     def v_mpoint(c, v, offs, slot, bx):
         # the proved kernel's own spec: some vertex of the element lies in the closed box
@@ -129,7 +117,7 @@ def register(reg):
     ib_contract(G + 'multipoint.py::MultiPointArray.intersects_bounds', 'MultiPointArray', 1, v_mpoint)
     ib_contract(G + 'line.py::LineArray.intersects_bounds', 'LineArray', 1, v_line)
     ib_contract(G + 'multiline.py::MultiLineArray.intersects_bounds', 'MultiLineArray', 2, v_mline)
-    ib_contract(G + 'polygon.py::PolygonArray.intersects_bounds', 'PolygonArray', 2, v_two(POLY_MEETS))
+    ib_contract(G + 'polygon.py::PolygonArray.intersects_bounds', 'PolygonArray', 2, v_poly)
     ib_contract(G + 'multipolygon.py::MultiPolygonArray.intersects_bounds', 'MultiPolygonArray', 3, v_mpoly)
 
     # ------------------------------------------------------------ length / area wrappers
